@@ -140,7 +140,26 @@ func genPositionsWalk(r *rand.Rand, n int) []Step {
 func genScenario(r *rand.Rand, i int) []Step {
 	blk := func(dt int) Step { return Step{"a": "block", "dt": float64(dt)} }
 	u, v := pick(r, "u2", "u3"), "u1"
-	switch i % 21 {
+	switch i % 23 {
+	case 22: // a leveraged position is left alone for about ten years in ONE block gap: when the sweep finally liquidates it, what it
+		// recovers is less than the interest accrued (the deepest kind of shortfall: Repay books everything as interest, principal
+		// and part of the interest stay owed); a second borrower opens afterwards and everybody is refreshed
+		return []Step{{"a": "levOpen", "u": u, "p": float64(1), "sz": pick(r, "s1", "1000000"), "lev": pick(r, "5", "9")}, blk(5),
+			{"a": "levOpen", "u": v, "p": float64(1), "sz": "s1", "lev": "2"}, blk(5), blk(pick(r, 299592000, 378432000, 473040000)),
+			{"a": "feedAll"}, blk(5), {"a": "feedAll"}, blk(5), {"a": "levClosePositions", "u": "bot", "exact": true, "liq": []any{[]any{u, float64(1)}, []any{v, float64(2)}}, "sl": []any{}}, blk(5),
+			{"a": "levOpen", "u": "u3", "p": float64(1), "sz": "s1", "lev": "3"}, {"a": "feedAll"}, blk(5), {"a": "unbond", "u": "u4", "frac": "third"}, {"a": "feedAll"}, blk(5)}
+	case 21: // the market moves against a 5x position until its health is at or just below the safety factor; nobody liquidates it and
+		// its owner tops it up (a consolidating open with leverage 0) with far too little to restore it, then with enough
+		side := pick(r, "long", "short")
+		mul := pick(r, "0.815", "0.83", "0.84")
+		if side == "short" {
+			mul = pick(r, "1.16", "1.17", "1.18")
+		}
+		return []Step{{"a": "perpOpen", "u": u, "p": float64(1), "side": side, "coll": "uusdc", "sz": pick(r, "s1", "1000000"), "lev": "5"}, blk(5),
+			{"a": "feed", "asset": "ATOM", "mul": mul}, blk(5),
+			{"a": "perpOpen", "u": u, "p": float64(1), "side": side, "coll": "uusdc", "sz": pick(r, "1000", "one", "20000"), "lev": "0"}, blk(5),
+			{"a": "perpOpen", "u": u, "p": float64(1), "side": side, "coll": "uusdc", "sz": "s1", "lev": pick(r, "0", "2")}, blk(5),
+			{"a": "perpClosePositions", "u": "bot", "exact": true, "liq": []any{[]any{u, float64(1)}}, "sl": []any{}, "tp": []any{}}, blk(5)}
 	case 20: // a two-sided market; a long with trading-asset collateral and (almost) no leverage owes funding but no interest; a bot
 		// names it in the liquidation list while it is healthy (the attempt settles interest and funding and leaves it open)
 		return []Step{{"a": "perpOpen", "u": v, "p": float64(1), "side": "short", "coll": "uusdc", "sz": "s1", "lev": "2"},
